@@ -171,7 +171,9 @@ def get_normalized_hostname(url, normalize_amp=True, infer_redirection=True):
         splitted = url
     else:
         try:
-            splitted = urlsplit(ensure_protocol(url.strip()))
+            splitted = urlsplit(
+                ensure_protocol(CONTROL_CHARS_RE.sub("", url).strip())
+            )
         except ValueError:
             return None
 
